@@ -487,6 +487,107 @@ def rule_factories_keep_their_hands_off(rep, repo):
     raise AnalysisError("instance-count only %d factory sequences" % n)
 
 
+def rule_float_sums(rep, repo):
+  """R9: floating-point operands.  A sum with a floating-point operand is a
+  floating-point type at least as wide as every floating-point operand (an
+  fp16 result cannot hold an fp32 addend), whichever position it is in; an
+  accumulator of floating-point products and the bias add that follows keep
+  that width."""
+  af = repo.module(AF)
+  cf = repo.module(CF)
+  mf = repo.module(MF)
+  qi = repo.module(ta.QI)
+  unit = "%s::FloatingPointAdder" % repo.module(AI).relpath
+  rep.unit(unit)
+  loc = af.loc(af.classes["IAdder"].node)
+
+  def operand(pe, spec, tag):
+    kind, bits = spec
+    if kind == "float":
+      return pe.call(pe.lookup_global("FloatingPoint", qi), [],
+                     {"bits": bits})
+    q = ta.make_operand(pe, repo, kind, tag)
+    if kind.startswith("fixed"):
+      q.attrs["bits"], q.attrs["int_bits"] = 12, 3
+    elif kind.startswith("po2"):
+      q.attrs["bits"] = q.attrs["int_bits"] = 5
+    return q
+  cases = [((("float", b1), ("float", b2)), max(b1, b2), True)
+           for b1 in (16, 32, 64) for b2 in (16, 32, 64)]
+  for other in ("fixed_s", "fixed_u", "po2_s", "ternary", "binary",
+                "binary01"):
+    for fb in (16, 32):
+      cases.append(((("float", fb), (other, None)), fb, False))
+      cases.append((((other, None), ("float", fb)), fb, False))
+  n = 0
+  for (s1, s2), want, exact in cases:
+    pe = PE(repo)
+    cfg = "IAdder.make_quantizer(%s%s, %s%s)" % (s1[0], s1[1] or "", s2[0],
+                                                 s2[1] or "")
+    try:
+      fac = pe.call(pe.lookup_global("IAdder", af), [], {})
+      a = pe.call(pe.getattr(fac, "make_quantizer"),
+                  [operand(pe, s1, "1"), operand(pe, s2, "2")], {})
+    except PyRaise as e:
+      rep.fail("R9", unit, "factory-raises", "%s raises %s" % (cfg, e),
+               loc=loc, instance=cfg)
+      continue
+    n += 1
+    o = a.attrs.get("output")
+    isf = bool(o.attrs.get("is_floating_point"))
+    bits = o.attrs.get("bits")
+    ok = isf and isinstance(bits, (int, F)) and (
+        bits == want if exact else bits >= want)
+    rep.check(ok, "R9", unit, "float-sum-width",
+              "%s: the sum type is %s with %r bits, expected floating point "
+              "with %s%d bits" % (cfg, "floating point" if isf else
+                                  "not floating point", bits,
+                                  "" if exact else ">= ", want), loc=loc,
+              instance=cfg, observed="%s/%r" % (isf, bits))
+  # accumulator of floating-point products, then the bias add
+  aunit = "%s::FloatingPointAccumulator" % repo.module(
+      "qkeras.qtools.quantized_operators.accumulator_impl").relpath
+  rep.unit(aunit)
+  for wb, xb, bias in ((32, 16, ("float", 16)), (16, 32, ("float", 64)),
+                       (16, 16, ("fixed_s", None)), (32, 32, ("float", 32))):
+    pe = PE(repo)
+    cfg = "fp%d x fp%d products accumulated, bias %s%s" % (
+        wb, xb, bias[0], bias[1] or "")
+    try:
+      mfac = pe.call(pe.lookup_global("MultiplierFactory", mf), [], {})
+      m = pe.call(pe.getattr(mfac, "make_multiplier"), [
+          operand(pe, ("float", wb), "w"), operand(pe, ("float", xb), "x")],
+                  {})
+      afac = pe.call(pe.lookup_global("AccumulatorFactory", cf), [], {})
+      acc = pe.call(pe.getattr(afac, "make_accumulator"), [[3, 3, 4, 8], m],
+                    {"use_bias": True})
+      fac = pe.call(pe.lookup_global("IAdder", af), [], {})
+      badd = pe.call(pe.getattr(fac, "make_quantizer"), [
+          acc.attrs["output"], operand(pe, bias, "b")], {})
+    except PyRaise as e:
+      rep.fail("R9", aunit, "factory-raises", "%s raises %s" % (cfg, e),
+               loc=loc, instance=cfg)
+      continue
+    n += 1
+    ao, bo = acc.attrs["output"], badd.attrs["output"]
+    need = max(wb, xb)
+    need_b = max(need, bias[1] or 0)
+    rep.check(bool(ao.attrs.get("is_floating_point")) and
+              ao.attrs.get("bits") == need and
+              bool(bo.attrs.get("is_floating_point")) and
+              isinstance(bo.attrs.get("bits"), (int, F)) and
+              bo.attrs.get("bits") >= need_b, "R9", aunit,
+              "float-accumulator-width",
+              "%s: accumulator %r bits (floating point: %r), after the "
+              "bias add %r bits; expected %d and >= %d" % (
+                  cfg, ao.attrs.get("bits"),
+                  ao.attrs.get("is_floating_point"), bo.attrs.get("bits"),
+                  need, need_b), loc=loc, instance=cfg,
+              observed="%r/%r" % (ao.attrs.get("bits"), bo.attrs.get("bits")))
+  if n < 30:
+    raise AnalysisError("instance-count only %d float sums" % n)
+
+
 def run(rep, repo, tier):
   DOM.clear()
   DOM.update(DOM_THOROUGH if tier == "thorough" else DOM_QUICK)
@@ -502,6 +603,8 @@ def run(rep, repo, tier):
   rule_siblings(rep, repo)
   rule_factories_keep_their_hands_off(rep, repo)
   rep.require_instances("R8", 24)
+  rule_float_sums(rep, repo)
+  rep.require_instances("R9", 30)
   rep.require_instances("R6", 40)
   # R7: get_min_max_exp (trusted by the po2 adders / accumulators) against
   # the qkeras po2 quantizers' own exponent sets (rule shared with C18)
